@@ -169,6 +169,9 @@ let dispatch name =
   | "disc_square_net" -> let r = rq () in let w = rq () in plist pqlist (Exec.q_disc_square_net r w)
   | "const_par_curve" -> let tol = rq () in let o = robj () in let x = rq () in let d = rnat () in
     pres pobj (Exec.q_const_par_curve tol o x d)
+  | "default_obj" -> let rat = rbool () in let bs = rlist rbasis in
+    pobj (if rat then Exec.q_default_obj_rat bs else Exec.q_default_obj bs)
+  | "bounding_box" -> let o = robj () in plist (fun (a, b) -> pq a; pq b) (Exec.q_obj_bounding_box o)
   | "curve_interpolate" -> let tol = rq () in let b = rbasis () in let ts = rqlist () in let x = rlist rqlist in
     pres (fun o -> plist pqlist o.Obj.o_cps) (Exec.q_curve_interpolate tol b ts x)
   | "curve_lsq" -> let tol = rq () in let b = rbasis () in let ts = rqlist () in let x = rlist rqlist in
